@@ -641,10 +641,32 @@ def load_known():
     return out
 
 
+def _sweep_stale_scratch(max_age_s=3 * 3600):
+    """Replay roots are removed by the run that made them; a run that was killed leaves its own behind.
+    Remove such leftovers (our prefix only, older than a few hours) so that scratch space does not fill up."""
+    import shutil
+    import tempfile
+    base = tempfile.gettempdir()
+    now = time.time()
+    try:
+        names = os.listdir(base)
+    except OSError:
+        return
+    for n in names:
+        if n.startswith("cacache-replay-"):
+            p = os.path.join(base, n)
+            try:
+                if now - os.path.getmtime(p) > max_age_s:
+                    shutil.rmtree(p, ignore_errors=True)
+            except OSError:
+                pass
+
+
 def run_check(prop_id, tasks, tier, seed, level_note, assumptions, bounds, t_start=None, extra_coverage=None):
     """Run all tasks of a property check; write evidence; print verdict lines; return exit code."""
     t_start = t_start or time.time()
     os.makedirs(os.path.join(VERIF, "evidence"), exist_ok=True)
+    _sweep_stale_scratch()
     # make sure dumps and runners are built once, before forking workers
     flavours = sorted({t["flavour"] for t in tasks})
     for fl in flavours:
